@@ -11,7 +11,8 @@ DEMO=$(ls demo_*.py | head -1)
 cp $DEMO $OUT/demo.py
 PYTHONPATH=$WT TQDM_DISABLE=1 /venv/bin/python $DEMO > $OUT/demo_with.log 2>&1; W=$?
 BASE=$(python3 /tmp/wt/baseline.py $WT | head -1)
-git stash -q -- polyply
+# git stash is shared by all worktrees of a repository: revert / re-apply the patch instead
+git apply -R $OUT/patch.diff
 PYTHONPATH=$WT TQDM_DISABLE=1 /venv/bin/python $DEMO > $OUT/demo_without.log 2>&1; WO=$?
-git stash pop -q
+git apply $OUT/patch.diff
 echo "demo_with_change_exit=$W demo_without_change_exit=$WO baseline: $BASE lines_changed=$(grep -c '^[+-][^+-]' $OUT/patch.diff)"
